@@ -120,7 +120,36 @@ namespace sim
                 {
                     found = 1;
                     phys = pi->physical;
-                    content = vm->rt->fileio().read_file(*pi);
+                    // disk fault between resolution and read
+                    std::string between = st.value("between", std::string());
+                    std::string original;
+                    bool faulted = false;
+                    if (!between.empty() && phys.size() > 4 && phys.substr(phys.size() - 4) != ".pbo")
+                    {
+                        std::error_code ec;
+                        { std::ifstream in(phys, std::ios::binary); original.assign(std::istreambuf_iterator<char>(in), std::istreambuf_iterator<char>()); }
+                        faulted = true;
+                        if (between == "delete") { std::filesystem::remove(phys, ec); }
+                        else if (between == "mkdir") { std::filesystem::remove(phys, ec); std::filesystem::create_directories(phys, ec); }
+                        else if (between.rfind("truncate", 0) == 0)
+                        {
+                            size_t n = (size_t)(between.back() - '0');
+                            std::string keep;
+                            { std::ifstream in(phys, std::ios::binary); keep.resize(n); in.read(keep.data(), (std::streamsize)n); keep.resize((size_t)in.gcount()); }
+                            std::ofstream outf(phys, std::ios::binary | std::ios::trunc);
+                            outf.write(keep.data(), (std::streamsize)keep.size());
+                        }
+                        g->faults_fired["disk_" + between]++;
+                    }
+                    try { content = vm->rt->fileio().read_file(*pi); }
+                    catch (const std::exception& e) { exc = e.what(); }
+                    if (faulted)
+                    { // the fault is over: put the file back so that later requests of this run see the original disk
+                        std::error_code ec;
+                        std::filesystem::remove_all(phys, ec);
+                        std::ofstream outf(phys, std::ios::binary | std::ios::trunc);
+                        outf.write(original.data(), (std::streamsize)original.size());
+                    }
                 }
             }
             catch (const std::exception& e) { exc = e.what(); }
